@@ -261,7 +261,16 @@ void sched_raise(int sig)
 		return;
 	}
 	saved = T[me].mask;
-	sigfillset(&T[me].mask);
+	{
+		struct sigaction sa;
+		int k;
+		sigaction(sig, NULL, &sa);
+		for (k = 1; k < 65; k++)
+			if (sigismember(&sa.sa_mask, k) == 1)
+				sigaddset(&T[me].mask, k);
+		if (!(sa.sa_flags & SA_NODEFER))
+			sigaddset(&T[me].mask, sig);
+	}
 	pthread_kill(pthread_self(), sig);
 	T[me].mask = saved;
 }
@@ -490,9 +499,16 @@ static int s_spin_unlock(pthread_spinlock_t *l)
 	return r;
 }
 
+int (*sched_create_fault)(void);      /* return an errno to make the library's pthread_create fail */
+
 static int s_create(pthread_t *pt, const pthread_attr_t *a, void *(*fn)(void *), void *arg)
 {
 	point(OP_RUN, NULL, 0, "pthread_create");
+	if (sched_create_fault) {
+		int e = sched_create_fault();
+		if (e)
+			return e;
+	}
 	new_thread("lib", NULL, fn, arg, pt, a);
 	return 0;
 }
